@@ -573,6 +573,8 @@ func checkC19(p *Prog, r *Report) {
 	// must have been replaced BEFORE the unit transformation halves it (a halved sentinel no longer equals the
 	// sentinel and stays in the series: 999.9 → 499.95 "MJ/m²") — shared with C04.R3
 	c04Pipeline(p, r, "C19.O7")
+	// a gap marker left in the radiation series is a radiation of several hundred MJ to the surface formula (shared with C04.R8)
+	sentinelFallback(p, r, "C19.O8")
 }
 
 func uniq(ss []string) []string {
